@@ -11,7 +11,7 @@ for p in props:
   pid = p["id"]
   if pid not in registry.CHECKS:
     continue
-  m = meta["checks"][pid]
+  m = registry.META[pid]
   checks.append({
       "property_id": pid,
       "quick_cmd": "./check %s --tier quick" % pid,
